@@ -36,7 +36,7 @@ ASSUMPTIONS = ['"evaluating any rule terminates" is restated as bounded progress
 LEVEL_TEXT = ('Seeded sampling of reference graphs with targeted shapes, compared with an independent DFS; every clean '
               'graph is additionally executed. The graph space is unbounded, so structured sampling is the level.')
 LEVEL_NOTE = 'trusted: the independent graph analysis (own DFS over all rule: occurrences, including those under not)'
-PLAN = {'quick': dict(shards=4, wall=60), 'thorough': dict(shards=16, wall=400)}
+PLAN = {'quick': dict(shards=4, wall=120), 'thorough': dict(shards=16, wall=400)}
 MIN = {'evaluations': 500, 'graphs_clean': 100, 'graphs_undefined': 50, 'graphs_cyclic': 50, 'validator_runs': 50,
        'clean_rule_evaluations': 1000, 'graphs_reference_under_not': 50, 'late_registration_verdicts': 200,
        'living_verdicts_judged': 100, 'living_file_deleted': 20, 'living_bad_to_clean': 10, 'living_clean_to_bad': 8}
